@@ -30,6 +30,8 @@ pub struct Merged {
     pub notes: BTreeMap<String, i64>,
     pub samples: Vec<Value>,
     pub engines: Vec<String>,
+    /// summary of the libFuzzer stage, when it ran
+    pub fuzz: Option<Value>,
 }
 
 pub struct Violation {
@@ -363,6 +365,41 @@ pub fn run(a: RunArgs) -> i32 {
             if violation.is_some() {
                 break;
             }
+        }
+    }
+
+    // coverage-guided stage (thorough tier only; see engine/fuzzstage.rs)
+    if a.tier == Tier::Thorough && violation.is_none() && infra.is_empty() {
+        match std::env::var("VF_FUZZ_BIN") {
+            Ok(p) if Path::new(&p).exists() => {
+                let runs = std::env::var("VF_FUZZ_RUNS").ok().and_then(|s| s.parse().ok()).unwrap_or_else(|| check.fuzz_runs());
+                let out = super::fuzzstage::run(&id, Path::new(&p), a.seed, check.workers().min(16), runs, check.max_len(), 2400);
+                merged.engines.push(format!(
+                    "libFuzzer stage: {} executions over {} processes ({} runs each, ASan, max_len {})",
+                    out.runs,
+                    check.workers().min(16),
+                    runs,
+                    check.max_len()
+                ));
+                merged.fuzz = Some(out.summary);
+                for n in out.notes {
+                    merged.engines.push(n);
+                }
+                if let Some((sig, path)) = out.violation {
+                    // the replay file is already written; read it back for the report
+                    if let Ok((_, kind, data, v)) = read_replay(&path) {
+                        violation = Some(Violation {
+                            sig,
+                            msg: v["msg"].as_str().unwrap_or("").to_string(),
+                            kind,
+                            data,
+                            detail: vec![],
+                            profile: "fuzz".into(),
+                        });
+                    }
+                }
+            }
+            _ => merged.engines.push("libFuzzer stage: skipped (VF_FUZZ_BIN not set: the fuzz binary was not built)".into()),
         }
     }
 
